@@ -1,0 +1,61 @@
+//go:build verif
+
+// Contracts for contract-based deductive verification with govc (see /verif/DESIGN.md).
+// This file is comment-only: it adds no code and is compiled only with the build tag "verif".
+// One clause per //@ line (continued while parentheses are open).  Vocabulary: the spec functions
+// generated from /verif/spec/v20.spec and the representation declared below (field20, midx20,
+// vcode20, vstr20, wf20, ...), plus /verif/spec/common.smt2 and /verif/spec/v20.smt2.
+
+package gocvss20
+
+//@ repr CVSS20
+//@ bytes 4
+//@ field AV  u0[7:6] codes L A N
+//@ field AC  u0[5:4] codes L M H
+//@ field Au  u0[3:2] codes M S N
+//@ field C   u0[1:0] codes N P C
+//@ field I   u1[7:6] codes N P C
+//@ field A   u1[5:4] codes N P C
+//@ field E   u1[3:1] codes ND U POC F H
+//@ field RL  u1[0:0]+u2[7:6] codes ND OF TF W U
+//@ field RC  u2[5:4] codes ND UC UR C
+//@ field CDP u2[3:1] codes ND N L LM MH H
+//@ field TD  u2[0:0]+u3[7:6] codes ND N L M H
+//@ field CR  u3[5:4] codes ND L M H
+//@ field IR  u3[3:2] codes ND L M H
+//@ field AR  u3[1:0] codes ND L M H
+
+// ---- Set / Get / validate (C07, C09, C06, C18) ----
+
+//@ func (*CVSS20).Set(cvss20, abv, value)
+//@   requires[wf] (wf20 cvss20)
+//@   inline validate
+//@   modifies cvss20
+//@   ensures[ok_iff_legal] (= (isnil result) (and (>= (midx20 abv) 0) (not (= (vcode20 (midx20 abv) value) #xff))))
+//@   ensures[sets_metric] (=> (isnil result) (= (field20 cvss20 (midx20 abv)) (vcode20 (midx20 abv) value)))
+//@   ensures[frame_other_metrics] (forall-in (m 0 13) (=> (not (and (isnil result) (= m (midx20 abv)))) (= (field20 cvss20 m) (field20 (old cvss20) m))))
+//@   ensures[fail_unchanged] (=> (not (isnil result)) (= cvss20 (old cvss20)))
+//@   ensures[wf_preserved] (wf20 cvss20)
+//@   ensures[err_unknown_metric] (=> (< (midx20 abv) 0) (and (is-ErrInvalidMetric result) (str= (pabv result) abv)))
+//@   ensures[err_illegal_value] (=> (and (>= (midx20 abv) 0) (= (vcode20 (midx20 abv) value) #xff)) (= result ErrInvalidMetricValue))
+//@   allocs 0
+
+//@ func (CVSS20).Get(cvss20, abv)
+//@   requires[wf] (wf20 cvss20)
+//@   ensures[known_metric_value] (=> (>= (midx20 abv) 0) (and (isnil result.1) (= (vcode20 (midx20 abv) result.0) (field20 cvss20 (midx20 abv))) (not (= (vcode20 (midx20 abv) result.0) #xff))))
+//@   ensures[nonempty] (=> (>= (midx20 abv) 0) (> (len result.0) 0))
+//@   ensures[unknown_metric] (=> (< (midx20 abv) 0) (and (is-ErrInvalidMetric result.1) (str= (pabv result.1) abv) (= (len result.0) 0)))
+
+//@ func validate(value, enabled)
+//@   requires[short_list] (<= (len enabled) 255)
+//@   loop 1 invariant[bounds] (and (<= (- 1) rangeindex) (< rangeindex (len enabled)) (= (bv2nat i) (+ rangeindex 1)))
+//@   loop 1 invariant[none_before] (forall ((k Int)) (! (=> (and (<= 0 k) (<= k rangeindex)) (not (streq value (at enabled k)))) :pattern ((at enabled k))))
+//@   loop 1 decreases (- (len enabled) rangeindex)
+//@   ensures[found_first] (=> (isnil result.1) (and (< (bv2nat result.0) (len enabled)) (streq value (at enabled (bv2nat result.0))) (forall ((k Int)) (! (=> (and (<= 0 k) (< k (bv2nat result.0))) (not (streq value (at enabled k)))) :pattern ((at enabled k))))))
+//@   ensures[not_found] (=> (not (isnil result.1)) (and (= result.1 ErrInvalidMetricValue) (= result.0 #x00) (forall ((k Int)) (! (=> (and (<= 0 k) (< k (len enabled))) (not (streq value (at enabled k)))) :pattern ((at enabled k))))))
+
+//@ func (CVSS20).get(cvss20, abv)
+//@   requires[wf] (wf20 cvss20)
+//@   requires[known_metric] (>= (midx20 abv) 0)
+//@   inline Get
+//@   ensures[value] (and (= (vcode20 (midx20 abv) result) (field20 cvss20 (midx20 abv))) (not (= (vcode20 (midx20 abv) result) #xff)) (> (len result) 0))
